@@ -334,6 +334,32 @@ func nestingSpace(thorough bool) space {
 			}
 		}
 	}
+	// repetition rather than nesting: constructs that follow one another a million times. Nothing here
+	// is deep, so every one of them has to come back with a result or an ordinary error; what the parser
+	// or the lexer handles by one level of recursion per repetition (an else-if chain, comment after
+	// comment) dies of stack exhaustion instead
+	type rep struct{ head, unit, tail string }
+	reps := []rep{{"if false { 1 }", " else if false { 1 }", ""}, {"if false { 1 }", " else if false { 1 }", " else { 2 }"}, {"", "/**/", "1"}, {"1", "/**/", ""}, {"1", " /* c */ ", "+ 1"},
+		{"1", "\n", ""}, {"", "\n", "1"}, {"1", ";", ""}, {"1", "# c\n", "1"}, {"1", "// c\n", "1"}, {"1", "\n/**/", ""}, {"1", "/**/\n", ""}, {"1", "/**/# c\n", ""},
+		{"[1", ", 1", "]"}, {"[1", ",\n1", "]"}, {"f(1", ", 1", ")"}, {"{1: 1", ", 1: 1", "}"}, {"{1", ", 1", "}"}, {"func(a", ", a", ") { }"}, {"func(a", ", b=1", ") { }"}, {"switch 1 {", " case 1: 1\n", "}"}, {"switch 1 { case 1", ", 1", ": 1 }"},
+		{"'", "{1}", "'"}, {"'", "x{1}", "'"}, {"a", ", a", " = [1]"}, {"a", ", a", " := [1]"}, {"from a import b", ", b", ""}, {"from a", ".a", " import b"}, {"import a", ".a", ""},
+		{"1", " ? 1 : 1", ""}, {"", "true ? 1 : ", "1"}, {"x", "++", ""}, {"", "go ", "f()"}, {"", "defer ", "f()"}, {"", "return ", "1"}, {"", "<-", "c"}, {"", "c <- ", "1"}, {"", "x in ", "x"}, {"x", " in x", ""}, {"x", " not in x", ""},
+		{"", "x = ", "1"}, {"", "x += ", "1"}, {"", "const x = ", "1"}, {"", "var x = ", "1"}, {"x", "[0:1]", ""}, {"x", "[:]", ""}, {"f", "(f)", ""}, {"1", "\n+ 1", ""}, {"x", "\n.a", ""}, {"{", "\n", "}"}, {"[", "\n", "]"}, {"f(", "\n", ")"}, {"func() {", "\n", "}"},
+		{"x := 1", "\nx := 1", ""}, {"", "{ }\n", ""}, {"", "if true { }\n", ""}, {"", "func f() { }\n", ""}, {"\"", "\\n", "\""}, {"`", "\n", "`"}, {"0", "0", ""}, {"1.", "0", ""}, {"x", "x", ""}, {"", "\t ", "1"}}
+	for _, f := range reps {
+		for _, d := range depths {
+			srcs = append(srcs, f.head+strings.Repeat(f.unit, d)+f.tail)
+		}
+		big := 1000000
+		if f.unit == "0" {
+			// the lexer collects a number literal by string concatenation: quadratic, minutes at 10^6 digits
+			big = 100000
+		}
+		if !thorough {
+			srcs = append(srcs, f.head+strings.Repeat(f.unit, big)+f.tail)
+		}
+		srcs = append(srcs, f.head+strings.Repeat(f.unit, big))
+	}
 	return space{"nesting", len(srcs), func(i int) string { return srcs[i] }}
 }
 
@@ -643,7 +669,7 @@ func Check(r *ev.Run, replay string) {
 		sort.Strings(skipped)
 		r.Set("skipped_inputs", skipped)
 	}
-	r.Set("rule", "soup: every sequence of <= 3 (thorough 4) tokens over a 68-token alphabet; edits: every single-token deletion and duplication, and the insertion of a line break (thorough: also of ; , : ( ) { }) at every token gap, of every program of the function/container/error/closure families (every 6th program in quick); edits2: every ordered pair of single-token edits (delete, insert or replace by one of 7 - thorough 15 - separator and bracket tokens) of 42 one-statement seeds, one per syntactic form, each with a parenthesised operand; hostile: every default-global callable (exec, network modules and exit excluded) x hostile argument tuples (arity 0-2; thorough all pairs), every method name x hostile receiver x hostile argument, operators/interpolation/indexing on all pairs of 22 hostile values; volume: every default-global callable and every method of six receiver kinds called 300 times in one process with 300 distinct strings / integers in each argument position; nesting: 25 constructs nested or chained 10..10^3 deep (prefix and bracket forms through the parser's recursion, operator / attribute / index / call / pipe chains through its loop), 24 of them also 10^6 deep (chains 4 x 10^6), complete and truncated (thorough: all at 10..10^6); slots: 25 templates (unbounded recursion through every call path, a function literal with a compile error inside every kind of block, for, if, switch, func, call, index/slice, assignment, import/from, go/defer, map, list, operators, jumps in and out of context, string escapes/interpolations, channel operations, attributes, pipes, range and for-in headers, try, comments, number literals, ++/--) x every combination of 2-15 fillers per slot, each alone and after a prelude that defines the names; shared (thorough): map/set/list x every ordered pair of 5-10 operations x go/spawn x {unordered, thread.wait() first, channel hand-off first}, each scenario free-running in its own child built with -race - a report through the Go runtime map routines on an unordered scenario is the access pattern behind the fatal error concurrent map writes, ordered scenarios must be silent. Every input runs parse, String, compile, Eval (15 ms deadline, virtual OS), risor.Call of up to four of its global names, and the error formatters in a worker child; distinct = worker batches completed")
+	r.Set("rule", "soup: every sequence of <= 3 (thorough 4) tokens over a 68-token alphabet; edits: every single-token deletion and duplication, and the insertion of a line break (thorough: also of ; , : ( ) { }) at every token gap, of every program of the function/container/error/closure families (every 6th program in quick); edits2: every ordered pair of single-token edits (delete, insert or replace by one of 7 - thorough 15 - separator and bracket tokens) of 42 one-statement seeds, one per syntactic form, each with a parenthesised operand; hostile: every default-global callable (exec, network modules and exit excluded) x hostile argument tuples (arity 0-2; thorough all pairs), every method name x hostile receiver x hostile argument, operators/interpolation/indexing on all pairs of 22 hostile values; volume: every default-global callable and every method of six receiver kinds called 300 times in one process with 300 distinct strings / integers in each argument position; nesting: 25 constructs nested or chained 10..10^3 deep (prefix and bracket forms through the parser's recursion, operator / attribute / index / call / pipe chains through its loop), 24 of them also 10^6 deep (chains 4 x 10^6), complete and truncated (thorough: all at 10..10^6), and 63 constructs repeated 10..10^6 times one after the other (else-if chains, comments, line breaks, separators, elements, parameters, cases, template segments, targets, prefixes, suffixes, digits); slots: 25 templates (unbounded recursion through every call path, a function literal with a compile error inside every kind of block, for, if, switch, func, call, index/slice, assignment, import/from, go/defer, map, list, operators, jumps in and out of context, string escapes/interpolations, channel operations, attributes, pipes, range and for-in headers, try, comments, number literals, ++/--) x every combination of 2-15 fillers per slot, each alone and after a prelude that defines the names; shared (thorough): map/set/list x every ordered pair of 5-10 operations x go/spawn x {unordered, thread.wait() first, channel hand-off first}, each scenario free-running in its own child built with -race - a report through the Go runtime map routines on an unordered scenario is the access pattern behind the fatal error concurrent map writes, ordered scenarios must be silent. Every input runs parse, String, compile, Eval (15 ms deadline, virtual OS), risor.Call of up to four of its global names, and the error formatters in a worker child; distinct = worker batches completed")
 }
 
 var frameRe = regexp.MustCompile(`github.com/risor-io/risor/([a-zA-Z0-9_/]+)\.(\(\*?[A-Za-z0-9_]+\)\.)?([A-Za-z0-9_]+)`)
